@@ -1,0 +1,14 @@
+//go:build verif
+
+package daemon
+
+// VerifHookBackgroundWorker, if set, is called by BackgroundWorker after the stopped-check and before the daemon lock
+// is taken. It only exists in builds with the "verif" tag and lets a test harness own the interleaving of a
+// registration with a concurrent shutdown. It must be set before any daemon is used.
+var VerifHookBackgroundWorker func(d *OrderedDaemon, name string)
+
+func verifHookBackgroundWorker(d *OrderedDaemon, name string) {
+	if hook := VerifHookBackgroundWorker; hook != nil {
+		hook(d, name)
+	}
+}
